@@ -1528,16 +1528,21 @@ func rebuildImpl(args rebuildArgs, oldHashes map[string]string) (rebuildState, m
 	// Stop now if there were errors
 	var results []graph.OutputFile
 	var metafile string
-	if !log.HasErrors() {
+	scanHadErrors := log.HasErrors()
+	if !scanHadErrors {
 		// Compile the bundle
 		result.MangleCache = cloneMangleCache(log, args.mangleCache)
 		results, metafile = bundle.Compile(log, timer, result.MangleCache, linker.Link)
+	}
 
-		// Canceling a build generates a single error at the end of the build
-		if args.options.CancelFlag.DidCancel() {
-			log.AddError(nil, logger.Range{}, "The build was canceled")
-		}
+	// Canceling a build generates a single error at the end of the build. This
+	// is done even if there are other errors because a canceled build stops
+	// early, so the other errors may be incomplete.
+	if args.options.CancelFlag.DidCancel() {
+		log.AddError(nil, logger.Range{}, "The build was canceled")
+	}
 
+	if !scanHadErrors {
 		// Stop now if there were errors
 		if !log.HasErrors() {
 			result.Metafile = metafile
